@@ -149,6 +149,26 @@ func (o *Obj) Lint(reg lint.Registry) (rs *zlint.ResultSet, panicVal any, stack 
 	return
 }
 
+// LintDefault runs the entry point WITHOUT a registry argument (LintCertificate /
+// LintRevocationList / LintOcspResponse), which must behave like Lint*Ex(obj, nil).
+func (o *Obj) LintDefault() (rs *zlint.ResultSet, panicVal any, stack string) {
+	defer func() {
+		if r := recover(); r != nil {
+			panicVal = r
+			stack = string(debug.Stack())
+		}
+	}()
+	switch o.Kind {
+	case corpus.Cert:
+		rs = zlint.LintCertificate(o.Cert)
+	case corpus.CRL:
+		rs = zlint.LintRevocationList(o.CRL)
+	default:
+		rs = zlint.LintOcspResponse(o.OCSP)
+	}
+	return
+}
+
 // PanicSite extracts the first zlint lint/util frame of a stack.
 func PanicSite(stack string) string {
 	lines := strings.Split(stack, "\n")
